@@ -50,6 +50,13 @@ FailedWF(s) ==
          [] c = "ChainAgree" -> WfChainAgree(s)
          [] c = "ParentRecorded" -> WfParentRecorded(s)}
 WellFormed(s) == FailedWF(s) = {}
+\* bp : region -> [name, kind, parent, header, exiting, jt] - what the region's own sub-graph records as "the region I represent"
+\* (SCFG.region, the back pointer): it must describe the region block that actually holds that sub-graph
+WfBackPointers(bp, s) ==
+  \A r \in DOMAIN bp \cap Regions(s.H) :
+     LET b == s.H[r] p == bp[r] IN
+     /\ p.name = r /\ p.kind = b.rk /\ p.header = b.header /\ p.exiting = b.exiting /\ p.jt = b.jt
+     /\ p.parent = b.up
 
 (***************************** C06 TablesAgree *****************************)
 TablesAgree(H) ==
